@@ -18,9 +18,15 @@ PID = "C19"
 
 
 def _types():
-    import safeds_stubgen.api_analyzer._types as T
+    """The type classes: the private module if it exists, else the names exported by the package."""
+    try:
+        import safeds_stubgen.api_analyzer._types as T
 
-    return T
+        return T
+    except ImportError:
+        import safeds_stubgen.api_analyzer as T
+
+        return T
 
 
 # ------------------------------------------------------------------------------------------ term generation
